@@ -25,6 +25,9 @@ class Frame(Generic[BeamT]):
 
     def __init__(self) -> None:
         self.beams: List[Dict[int, Optional[BeamT]]] = [{} for _ in range(8)]
+        # direction (corner_1, corner_2) in which each beam was last added;
+        # direction-dependent data (spline points, arc angles) is given in this sense
+        self.directions: Dict[frozenset, Tuple[int, int]] = {}
 
         # create wires and connections for quicker addressing
         for axis in (0, 1, 2):
@@ -41,6 +44,7 @@ class Frame(Generic[BeamT]):
 
         self.beams[corner_1][corner_2] = beam
         self.beams[corner_2][corner_1] = beam
+        self.directions[frozenset((corner_1, corner_2))] = (corner_1, corner_2)
 
     def get_axis_beams(self, axis: AxisType) -> List[BeamT]:
         """Returns all non-None beams from given axis"""
@@ -66,7 +70,7 @@ class Frame(Generic[BeamT]):
                     continue
 
                 if beam is not None:
-                    beams.append((corner_1, corner_2, beam))
+                    beams.append((*self.directions[frozenset(pair)], beam))
                     listed.append(pair)
 
         return beams
